@@ -167,6 +167,21 @@ fixed("C08", "C08:keypress-split-across-arrivals", "eb7b570",
        {"kind": "split", "paste_threshold": None, "pre": B(""), "unit": B(b"\x1b[1;5C".hex()), "cuts": [3],
         "post": B(b"z".hex()), "between": [0], "during_blocked": True}])
 
+fixed("C18", "C18:movement-not-conserved-after-failed-query", "ca7a4a8",
+      "after one get_cursor_vertical_diff that raised (typed-ahead input, no callback) every later call returned 0 "
+      "without querying: the re-entrancy flag was never cleared",
+      [{"kind": "history", "rows": 6, "cols": 5, "pre": 1, "steps": [
+          {"h": 0.3, "tall": False, "len": 0.5, "cursor": 0.0, "d": 0.9, "nested": False, "d2": 0.5,
+           "extra_query": False, "d3": 0.5, "failed_first": True},
+          {"h": 0.3, "tall": False, "len": 0.5, "cursor": 0.0, "d": 0.1, "nested": False, "d2": 0.5,
+           "extra_query": False, "d3": 0.5, "failed_first": False}]}])
+
+fixed("C18", "C18:extra-bytes-undecodable-in-stream-encoding", "ea06291",
+      "typed-ahead input holding a byte that is invalid in the stream's encoding (a lone surrogate from "
+      "errors='surrogateescape') raised UnicodeEncodeError instead of reaching extra_bytes_callback as that byte",
+      [{"kind": "parse", "extra": "a\udce1", "csi": "\x1b[", "row": 3, "col": 7, "trailing": "", "fail_at": [],
+        "callback": True, "encoding": "utf-8", "errors": "surrogateescape"}])
+
 known("C03", "C03:prefix-then-undecodable-byte",
       "get_key raises UnicodeDecodeError for a table-sequence prefix (e.g. ESC) followed by a byte >= 0x80 "
       "that does not decode: ESC + any 8-bit byte under ascii, ESC + a UTF-8 lead/continuation byte under utf-8",
